@@ -74,6 +74,11 @@ func vfExpectedHeader(specs []vfHdrSpec, name string, s *vfC07Sess) []string {
 }
 
 func vfC07(w *vfWorld) {
+	if w.variant == "race" {
+		// header injection for many users truly in parallel
+		vfFreeRun(w, "C07")
+		return
+	}
 	t := w.tape
 	cs := &vfC07Case{Sources: map[string]int{}}
 	w.sample = cs
@@ -83,6 +88,7 @@ func vfC07(w *vfWorld) {
 	ht := w.writeFile("htpasswd", vfSHAEntry("hank", "pw-hank")+"\n")
 	cfg.Extra = append(cfg.Extra, "--skip-jwt-bearer-tokens=true", "--htpasswd-file="+ht, "--skip-auth-route=^/open/")
 	var reqSpecs, respSpecs []vfHdrSpec
+	timeHdrs := false
 	if t.Bool("c07.mode") {
 		cs.Mode = "legacy"
 		// the documented legacy mapping (docs: configuration/overview + alpha-config conversion)
@@ -203,9 +209,17 @@ func vfC07(w *vfWorld) {
 			}
 			return out
 		}
+		// the two timestamp claims, judged by what they mean (the text form is Go's): created_at is when the session was
+		// issued, expires_on when its tokens expire
+		timeHdrs = t.Prob("c07.timeclaims", 400)
 		cfg.Mut = func(o *options.Options) {
 			o.InjectRequestHeaders = conv(reqSpecs)
 			o.InjectResponseHeaders = conv(respSpecs)
+			if timeHdrs {
+				o.InjectRequestHeaders = append(o.InjectRequestHeaders,
+					options.Header{Name: "X-Vf-Created-At", Values: []options.HeaderValue{{ClaimSource: &options.ClaimSource{Claim: "created_at"}}}},
+					options.Header{Name: "X-Vf-Expires-On", Values: []options.HeaderValue{{ClaimSource: &options.ClaimSource{Claim: "expires_on"}}}})
+			}
 		}
 	}
 	for _, s := range reqSpecs {
@@ -235,8 +249,9 @@ func vfC07(w *vfWorld) {
 	}
 
 	type source struct {
-		name string
-		b    *vfBrowser
+		name    string
+		loginAt time.Time
+		b       *vfBrowser
 		hdrs [][2]string
 		sess *vfC07Sess
 		path string
@@ -251,7 +266,7 @@ func vfC07(w *vfWorld) {
 		u := idp.users[user]
 		g := idp.grants[len(idp.grants)-1]
 		gs, _ := u.Groups.([]string)
-		sources = append(sources, &source{name: "cookie:" + user, b: b, path: "/app/x", sess: &vfC07Sess{claims: map[string][]string{
+		sources = append(sources, &source{name: "cookie:" + user, loginAt: time.Now(), b: b, path: "/app/x", sess: &vfC07Sess{claims: map[string][]string{
 			"user": {u.Sub}, "email": {u.Email}, "groups": gs, "preferred_username": {u.PreferredUsername},
 			"access_token": {idp.accessToken(g)}, "id_token": {g.IDTokens[0]}, "refresh_token": {g.RT}}}})
 	}
@@ -355,6 +370,26 @@ func vfC07(w *vfWorld) {
 		}
 		h := r.UpHits[0]
 		w.nontriv = true
+		if timeHdrs && !src.loginAt.IsZero() {
+			parse := func(v string) (time.Time, bool) {
+				if i := strings.Index(v, " m="); i >= 0 {
+					v = v[:i]
+				}
+				tm, err := time.Parse("2006-01-02 15:04:05.999999999 -0700 MST", v)
+				return tm, err == nil
+			}
+			c, okc := parse(h.Get("X-Vf-Created-At"))
+			e, oke := parse(h.Get("X-Vf-Expires-On"))
+			near := func(a, b time.Time) bool { d := a.Sub(b); return d > -2*time.Second && d < 2*time.Second }
+			switch {
+			case !okc || !oke:
+				w.violate("C07", "time-claim", "unparsable", "%s: created_at header %q / expires_on header %q", src.name, h.Get("X-Vf-Created-At"), h.Get("X-Vf-Expires-On"))
+			case !near(c, src.loginAt):
+				w.violate("C07", "time-claim", "created_at", "%s: the created_at header says %v, the session was issued at %v", src.name, c, src.loginAt)
+			case !near(e, src.loginAt.Add(idp.AccessTTL)):
+				w.violate("C07", "time-claim", "expires_on", "%s: the expires_on header says %v, the session's tokens (issued %v, lifetime %v) expire at %v", src.name, e, src.loginAt, idp.AccessTTL, src.loginAt.Add(idp.AccessTTL))
+			}
+		}
 		// configured names
 		seen := map[string]bool{}
 		for _, sp := range reqSpecs {
